@@ -17,3 +17,24 @@ Theorem C14_invalid_rejected : forall c kv target,
   forallb is_valid kv = false -> step c target (OLoad kv) = (target, RErr EInvalidTask).
 Proof. exact load_invalid_rejected. Qed.
 Print Assumptions C14_invalid_rejected.
+
+(* ---- concrete level (Heap.v): Save, then Load into a FRESH repository — new heap layout, new insertion
+   numbers, Index fields recomputed — represents the same abstract repository, hence is indistinguishable from
+   the original under every continuation ---- *)
+From GK Require Import Heap.
+From GK.Proofs Require Import HeapProofs.
+
+Theorem C14_concrete_roundtrip : forall c s, Rep c s -> Rep (load_fresh (csave c)) s.
+Proof. exact save_load_rep. Qed.
+Print Assumptions C14_concrete_roundtrip.
+Theorem C14_concrete_indistinguishable : forall c s ops, Rep c s -> ops_ok cfg_inmem s ops ->
+  forallb inmem_op ops = true -> coutputs (load_fresh (csave c)) ops = coutputs c ops.
+Proof. exact save_load_indistinguishable. Qed.
+Print Assumptions C14_concrete_indistinguishable.
+Theorem C14_reachable_roundtrip : forall ops cont,
+  ops_ok cfg_inmem [] ops -> forallb inmem_op ops = true ->
+  ops_ok cfg_inmem (run cfg_inmem ops) cont -> forallb inmem_op cont = true ->
+  Rep (load_fresh (csave (crun ops))) (run cfg_inmem ops)
+  /\ coutputs (load_fresh (csave (crun ops))) cont = coutputs (crun ops) cont.
+Proof. exact reachable_save_load. Qed.
+Print Assumptions C14_reachable_roundtrip.
